@@ -2,11 +2,14 @@
 //! only a single push (or pop) may execute the critical region at a time
 
 use super::super::ogre_stacks::OgreStack;
+#[cfg(not(feature = "verif"))]
 use std::{
     fmt::Debug,
     sync::atomic::{AtomicU64,AtomicBool,Ordering},
     mem::MaybeUninit,
 };
+#[cfg(feature = "verif")]
+use {crate::verif::atomic::{AtomicU64,AtomicBool}, std::{fmt::Debug, sync::atomic::Ordering, mem::MaybeUninit}};
 
 
 #[repr(C,align(64))]      // aligned to cache line sizes to avoid false-sharing performance degradation
@@ -56,7 +59,9 @@ impl<SlotType: Copy+Debug, const BUFFER_SIZE: usize, const METRICS: bool, const 
                     }
                     return false;
                 }
+                #[cfg(feature = "verif")] crate::verif::yield_point("stack.push.in_region");
                 mutable_self.buffer[self.head as usize] = element;
+                #[cfg(feature = "verif")] crate::verif::yield_point("stack.push.before_head");
                 mutable_self.head += 1;
                 self.flag.store(false, Ordering::Release);
                 if METRICS {
@@ -88,7 +93,9 @@ impl<SlotType: Copy+Debug, const BUFFER_SIZE: usize, const METRICS: bool, const 
                     }
                     return None;
                 }
+                #[cfg(feature = "verif")] crate::verif::yield_point("stack.pop.in_region");
                 mutable_self.head -= 1;
+                #[cfg(feature = "verif")] crate::verif::yield_point("stack.pop.before_read");
                 let element = self.buffer[self.head as usize];
                 self.flag.store(false, Ordering::Release);
                 if METRICS {
